@@ -238,6 +238,16 @@ theorem terminal_complete_reachable (k : Nat) (downCW : Bool) (upCW : Nat → Bo
     s.main = .returned ∧ (s.downCW = true → s.clEof = true) :=
   terminal_complete s (inv_run acts _ s (inv_init ..) h) (by rw [hcap]; exact protocol_facts.1) hcerr huerr hcw hcfin hufin hstuck
 
+/-- **Every run is finite** ("then the handler returns" needs no fairness assumption): every action of the proxy and of its
+environment strictly decreases a natural-number measure (chunks still to be moved, program counters of the three kinds of
+goroutine, copies not yet ended, faults that have not happened), so a run from `s` has at most `measure s` actions and then
+is in a state where nothing can move — which `terminal_complete` / `terminal_returns_without_halfclose` describe. -/
+theorem every_run_is_finite (acts : List Act) (s s' : St) (h : runActs s acts = some s') : acts.length ≤ measure s := by
+  have := run_length_bounded acts s s' h; omega
+
+theorem each_action_makes_progress (s s' : St) (a : Act) (h : step s a = some s') : measure s' < measure s :=
+  measure_decreases s s' a h
+
 /-! ### why the capacity of the signal channel matters (what the regenerated fact protects)
 With an unbuffered `downConnClosedCh` the pump cannot signal before `main` is waiting, `main` waits for the copies, and an
 upstream that answers only after it has seen the client's end-of-stream never ends its copy: the relay is stuck with the
